@@ -628,8 +628,11 @@ func runCase(r *h.Run, c caseT) {
 			go func() {
 				defer wg.Done()
 				<-startGate
-				for e.issued.Load() < at {
+				for spins := 0; e.issued.Load() < at; spins++ {
 					runtime.Gosched()
+					if spins > 2000 {
+						time.Sleep(50 * time.Microsecond) // submitters are slow (or stuck): do not burn a core
+					}
 				}
 				doClose(cs)
 			}()
@@ -977,9 +980,9 @@ func main() {
 		return
 	}
 
-	n := r.N(960, 24000)
+	n := r.N(1600, 32000)
 	if r.Phase == "race" {
-		n = r.N(160, 3000)
+		n = r.N(320, 4000)
 	}
 	if *casesFlag > 0 {
 		n = *casesFlag
